@@ -108,6 +108,9 @@ def peq(a, b, subst=None):
     return poly(a, subst) == poly(b, subst)
 
 # ------------------------------------------------------------------ path views
+def _ordterm(t):
+    return t[0] in ('add', 'sub', 'mul', 'div', 'int', 'round', 'dec', 'f', 'v', 'msg', 'rem', 'min', 'stored')
+
 class PathView:
     def __init__(self, eng, root, exit_):
         self.eng = eng; self.root = root; self.e = exit_; self.kind = exit_['kind']
@@ -163,6 +166,56 @@ class PathView:
             self._si = d
         return self._si
 
+    def implied_equalities(self):
+        """equalities between numeric terms that follow from the path's order facts without being stated:
+        e.g. [b < a] = False, m == a, [m < b] = False  ==>  a == b (the total order of Decimal / integers).
+        Decided by enumerating the weak orderings of each connected component of at most 5 terms (larger ones: nothing inferred)."""
+        if getattr(self, '_impl_eq', None) is not None: return self._impl_eq
+        ofs = []
+        for f, _, _ in self.facts:
+            of = None
+            if f[0] == 'val' and isinstance(f[2], bool) and f[1][0] == 'eq': of = ('eq' if f[2] else 'ne', f[1][1], f[1][2])
+            elif f[0] == 'val' and isinstance(f[2], bool) and f[1][0] == 'lt': of = ('lt' if f[2] else 'ge', f[1][1], f[1][2])
+            elif f[0] == 'is' and f[1][0] == 'ordcmp':
+                of = {'Less': ('lt', f[1][1], f[1][2]), 'Equal': ('eq', f[1][1], f[1][2]), 'Greater': ('lt', f[1][2], f[1][1])}.get(f[2])
+            if of is None: continue
+            if not (isinstance(of[1], tuple) and isinstance(of[2], tuple) and _ordterm(of[1]) and _ordterm(of[2])): continue
+            if of not in ofs: ofs.append(of)
+        out = []
+        rest = list(ofs)
+        while rest:
+            seedf = rest.pop(0); comp = {seedf[1], seedf[2]}; facts = [seedf]; changed = True
+            while changed:
+                changed = False
+                for of in list(rest):
+                    if (of[1][0] != 'int' and of[1] in comp) or (of[2][0] != 'int' and of[2] in comp):
+                        comp.add(of[1]); comp.add(of[2]); facts.append(of); rest.remove(of); changed = True
+            if len(facts) < 2 or len(comp) > 5: continue
+            terms = sorted(comp, key=repr); n = len(terms); idx = {t: i for i, t in enumerate(terms)}
+            consts = [(i, t[1]) for t, i in idx.items() if t[0] == 'int']
+            always = None
+            import itertools
+            for ranks in itertools.product(range(n), repeat=n):
+                ok = True
+                for (i, a) in consts:
+                    for (j, b) in consts:
+                        if i < j and ((a < b) != (ranks[i] < ranks[j]) or (a == b) != (ranks[i] == ranks[j])): ok = False
+                if not ok: continue
+                for rel, a, b in facts:
+                    ra, rb = ranks[idx[a]], ranks[idx[b]]
+                    if (rel == 'eq' and ra != rb) or (rel == 'ne' and ra == rb) or (rel == 'lt' and not ra < rb) or (rel == 'ge' and not ra >= rb): ok = False; break
+                if not ok: continue
+                eqs = set((i, j) for i in range(n) for j in range(i + 1, n) if ranks[i] == ranks[j])
+                always = eqs if always is None else (always & eqs)
+                if not always: break
+            stated = set()
+            for rel, a, b in facts:
+                if rel == 'eq': stated.add((min(idx[a], idx[b]), max(idx[a], idx[b])))
+            for (i, j) in sorted(always or ()):
+                if (i, j) not in stated: out.append((terms[i], terms[j]))
+        self._impl_eq = out
+        return out
+
     def signs(self):
         """[(X, 'pos'|'zero')] for all sign facts of the path"""
         return list(self.sign_index.keys())
@@ -171,6 +224,11 @@ class PathView:
         if pred[0] == 'bool': return 0 if pred[1] == value else None
         if pred[0] == 'not': return self.holds(pred[1], not value)
         return self.pos(('val', pred, value))
+
+    def str_empty(self, term, value=True):
+        """the path established (or refuted) that a string is empty: `x == ""`, `"" == x`, or `x.is_empty()`"""
+        r = self.holds(EQ(S(''), term), value)
+        return r if r is not None else self.holds(ISEMPTY(term), value)
 
     def is_variant(self, term, variant):
         if term[0] == 'adt': return 0 if term[2] == variant else None
